@@ -19,6 +19,14 @@ import (
 )
 
 // ---------------------------------------------------------------------------------------------
+// which exported library functions the cases of this run have called ("api:<pkg>.<Name>" in the
+// distribution; main.go compares the set with the exported API of the packages, see apiCheck)
+
+var apiCalls = map[string]int{}
+
+func api(name string) { apiCalls[name]++ }
+
+// ---------------------------------------------------------------------------------------------
 // values: int or []any
 
 func showV(v any) string {
@@ -50,6 +58,27 @@ func toInt(v any) int {
 }
 
 func eqV(a, b any) bool { return showV(a) == showV(b) }
+
+// keyTable: `any` is not `comparable` under the go1.18 rules of this module, so the functions that
+// need comparable elements (Compact, Equal) run on the canonical renderings of the values (structural
+// equality); the table maps a rendering back to its value.
+type keyTable map[string]any
+
+func (t keyTable) key(v any) string { k := showV(v); t[k] = v; return k }
+func (t keyTable) keys(l []any) []string {
+	out := make([]string, len(l))
+	for i, v := range l {
+		out[i] = t.key(v)
+	}
+	return out
+}
+func (t keyTable) vals(ks []string) []any {
+	out := make([]any, len(ks))
+	for i, k := range ks {
+		out[i] = t[k]
+	}
+	return out
+}
 
 // ---------------------------------------------------------------------------------------------
 // injected errors (identity matters: the property says the error E itself must surface)
@@ -498,36 +527,51 @@ func stageS(reg *registry, p stream.Stream[any], tok string) (stream.Stream[any]
 	k, arg := splitTok(tok)
 	switch k {
 	case "peek":
+		api("stream.WithPeek")
 		return stream.WithPeek(p), true
 	case "chunk":
+		api("stream.Chunk")
 		return &convS[[]any, any]{stream.Chunk(p, atoi(arg)), func(x []any) any { return x }}, true
 	case "compact":
+		api("stream.CompactFunc")
 		return stream.CompactFunc(p, relOf(arg)), true
+	case "compactw":
+		api("stream.Compact")
+		t := keyTable{}
+		return &convS[string, any]{stream.Compact[string](&convS[any, string]{p, t.key}), func(k string) any { return t[k] }}, true
 	case "filter":
+		api("stream.Filter")
 		return stream.Filter(p, predE(arg)), true
 	case "map":
+		api("stream.Map")
 		return stream.Map(p, fnE(arg)), true
 	case "first":
+		api("stream.First")
 		return stream.First(p, atoi(arg)), true
 	case "while":
+		api("stream.While")
 		return stream.While(p, predE(arg)), true
 	case "flats":
+		api("stream.FlattenSlices")
 		return stream.FlattenSlices[any](&convS[any, []any]{p, asList}), true
 	case "flat":
 		tbl := strings.Split(arg, ";")
 		outer := &convS[any, stream.Stream[any]]{p, func(v any) stream.Stream[any] { return newSSrc(reg, pickScript(tbl, v), true) }}
+		api("stream.Flatten")
 		return stream.Flatten[any](outer), true
 	case "join":
 		all := []stream.Stream[any]{p}
 		for _, sc := range strings.Split(arg, ";") {
 			all = append(all, newSSrc(reg, sc, false))
 		}
+		api("stream.Join")
 		return stream.Join(all...), true
 	case "runs":
 		f := strings.Split(arg, ",")
 		if len(f) != 3 {
 			return nil, false
 		}
+		api("stream.Runs")
 		return &runsProtoS{outer: stream.Runs(p, relOf(f[0])), take: optTake(f[1]), closeInner: f[2] == "1"}, true
 	}
 	return nil, false
@@ -543,11 +587,17 @@ func buildS(reg *registry, toks []string) (stream.Stream[any], bool) {
 	case "src":
 		p = newSSrc(reg, arg, false)
 	case "empty":
+		api("stream.Empty")
 		p = stream.Empty[any]()
 	case "error":
+		api("stream.Error")
 		p = stream.Error[any](inj("f" + strconv.Itoa(atoi(arg))))
 	case "fromit":
+		api("stream.FromIterator")
 		p = stream.FromIterator[any](newISrc(reg, arg, false))
+	case "chan":
+		api("stream.Chan")
+		p = stream.Chan[any](filledChan(arg))
 	default:
 		return nil, false
 	}
@@ -564,37 +614,51 @@ func stageI(reg *registry, p iterator.Iterator[any], tok string) (iterator.Itera
 	k, arg := splitTok(tok)
 	switch k {
 	case "peek":
+		api("iterator.WithPeek")
 		return iterator.WithPeek(p), true
 	case "chunk":
+		api("iterator.Chunk")
 		return &convI[[]any, any]{iterator.Chunk(p, atoi(arg)), func(x []any) any { return x }}, true
 	case "compact":
+		api("iterator.CompactFunc")
 		return iterator.CompactFunc(p, relOf(arg)), true
+	case "compactw":
+		api("iterator.Compact")
+		t := keyTable{}
+		return &convI[string, any]{iterator.Compact[string](&convI[any, string]{p, t.key}), func(k string) any { return t[k] }}, true
 	case "filter":
 		name, _ := splitBang(arg)
+		api("iterator.Filter")
 		return iterator.Filter(p, predOf(name)), true
 	case "map":
 		name, _ := splitBang(arg)
+		api("iterator.Map")
 		return iterator.Map(p, fnOf(name)), true
 	case "first":
+		api("iterator.First")
 		return iterator.First(p, atoi(arg)), true
 	case "while":
 		name, _ := splitBang(arg)
+		api("iterator.While")
 		return iterator.While(p, predOf(name)), true
 	case "flat":
 		tbl := strings.Split(arg, ";")
 		outer := &convI[any, iterator.Iterator[any]]{p, func(v any) iterator.Iterator[any] { return newISrc(reg, pickScript(tbl, v), true) }}
+		api("iterator.Flatten")
 		return iterator.Flatten[any](outer), true
 	case "join":
 		all := []iterator.Iterator[any]{p}
 		for _, sc := range strings.Split(arg, ";") {
 			all = append(all, newISrc(reg, sc, false))
 		}
+		api("iterator.Join")
 		return iterator.Join(all...), true
 	case "runs":
 		f := strings.Split(arg, ",")
 		if len(f) != 3 {
 			return nil, false
 		}
+		api("iterator.Runs")
 		return &runsProtoI{outer: iterator.Runs(p, relOf(f[0])), take: optTake(f[1])}, true
 	}
 	return nil, false
@@ -609,12 +673,21 @@ func buildI(reg *registry, toks []string) (iterator.Iterator[any], bool) {
 	switch k {
 	case "src":
 		p = newISrc(reg, arg, false)
+	case "slice": // the real iterator.Slice over the items of the script (no pull log)
+		api("iterator.Slice")
+		p = iterator.Slice(scriptItems(parseScript(arg)))
 	case "counter":
+		api("iterator.Counter")
 		p = &convI[int, any]{iterator.Counter(atoi(arg)), func(i int) any { return i }}
 	case "repeat":
+		api("iterator.Repeat")
 		p = iterator.Repeat[any](5, atoi(arg))
 	case "empty":
+		api("iterator.Empty")
 		p = iterator.Empty[any]()
+	case "chan":
+		api("iterator.Chan")
+		p = iterator.Chan[any](filledChan(arg))
 	default:
 		return nil, false
 	}
@@ -627,11 +700,23 @@ func buildI(reg *registry, toks []string) (iterator.Iterator[any], bool) {
 	return p, true
 }
 
+// filledChan: a channel that holds the items of the script and is closed (a receive never blocks).
+func filledChan(sc string) <-chan any {
+	items := scriptItems(parseScript(sc))
+	c := make(chan any, len(items)+1)
+	for _, x := range items {
+		c <- x
+	}
+	close(c)
+	return c
+}
+
 // xslices: list in, list out; ok=false means the stage is not available, panics are recovered by the caller
 func stageX(l []any, tok string) ([]any, bool) {
 	k, arg := splitTok(tok)
 	switch k {
 	case "chunk":
+		api("xslices.Chunk")
 		cs := xslices.Chunk(l, atoi(arg))
 		out := make([]any, len(cs))
 		for i, c := range cs {
@@ -639,15 +724,23 @@ func stageX(l []any, tok string) ([]any, bool) {
 		}
 		return out, true
 	case "compact":
+		api("xslices.CompactFunc")
 		return xslices.CompactFunc(l, relOf(arg)), true
+	case "compactw":
+		api("xslices.Compact")
+		t := keyTable{}
+		return t.vals(xslices.Compact(t.keys(l))), true
 	case "filter":
 		name, _ := splitBang(arg)
+		api("xslices.Filter")
 		return xslices.Filter(l, predOf(name)), true
 	case "map":
 		name, _ := splitBang(arg)
+		api("xslices.Map")
 		return xslices.Map(l, fnOf(name)), true
 	case "runs":
 		f := strings.Split(arg, ",")
+		api("xslices.Runs")
 		rs := xslices.Runs(l, relOf(f[0]))
 		out := make([]any, len(rs))
 		for i, c := range rs {
@@ -659,15 +752,37 @@ func stageX(l []any, tok string) ([]any, bool) {
 		for _, sc := range strings.Split(arg, ";") {
 			all = append(all, scriptItems(parseScript(sc)))
 		}
+		api("xslices.Join")
 		return xslices.Join(all...), true
 	case "repeat":
 		var a any = 0
 		if len(l) > 0 {
 			a = l[0]
 		}
+		api("xslices.Repeat")
 		return xslices.Repeat(a, atoi(arg)), true
 	}
 	return nil, false
+}
+
+func isTerminalX(tok string) bool { k, _ := splitTok(tok); return k == "reduce" || k == "equal" }
+
+// finishX: the terminal operation of an xs line
+func finishX(l []any, tok string) string {
+	if tok == "" {
+		return "list " + showList(l)
+	}
+	k, arg := splitTok(tok)
+	switch k {
+	case "reduce":
+		api("xslices.Reduce")
+		return "val " + strconv.Itoa(xslices.Reduce(l, 0, func(acc int, a any) int { return acc*3 + toInt(a) }))
+	case "equal":
+		api("xslices.Equal")
+		t := keyTable{}
+		return fmt.Sprintf("equal %v", xslices.Equal(t.keys(l), t.keys(scriptItems(parseScript(arg)))))
+	}
+	return "bad-op"
 }
 
 // ---------------------------------------------------------------------------------------------
@@ -744,15 +859,19 @@ func (st *implState) exec1(f []string, logs func() string) string {
 		}
 		l := scriptItems(parseScript(arg))
 		res := ""
+		stages, term := f[2:], ""
+		if n := len(stages); n > 0 && isTerminalX(stages[n-1]) {
+			stages, term = stages[:n-1], stages[n-1]
+		}
 		if p, _ := vlib.Try(func() {
-			for _, t := range f[2:] {
+			for _, t := range stages {
 				var ok bool
 				if l, ok = stageX(l, t); !ok {
 					res = "panic"
 					return
 				}
 			}
-			res = "list " + showList(l)
+			res = finishX(l, term)
 		}); p {
 			return "panic"
 		}
@@ -762,6 +881,7 @@ func (st *implState) exec1(f []string, logs func() string) string {
 		if !ok {
 			return "bad-pipeline"
 		}
+		api("stream.WithPeek")
 		st.peekS = stream.WithPeek(p)
 		return "ok"
 	case "itpk":
@@ -769,6 +889,7 @@ func (st *implState) exec1(f []string, logs func() string) string {
 		if !ok {
 			return "bad-pipeline"
 		}
+		api("iterator.WithPeek")
 		st.peekI = iterator.WithPeek(p)
 		return "ok"
 	case "strp":
@@ -779,6 +900,7 @@ func (st *implState) exec1(f []string, logs func() string) string {
 		if !ok {
 			return "bad-pipeline"
 		}
+		api("stream.Runs")
 		st.runsS = stream.Runs(p, relOf(f[1]))
 		st.innS = map[int]stream.Stream[any]{}
 		return "ok"
@@ -790,6 +912,7 @@ func (st *implState) exec1(f []string, logs func() string) string {
 		if !ok {
 			return "bad-pipeline"
 		}
+		api("iterator.Runs")
 		st.runsI = iterator.Runs(p, relOf(f[1]))
 		st.innI = map[int]iterator.Iterator[any]{}
 		return "ok"
@@ -804,18 +927,21 @@ func (st *implState) exec1(f []string, logs func() string) string {
 			st.sp.Close()
 			return "closed" + logs()
 		case f[0] == "collect" && len(f) == 2:
+			api("stream.Collect")
 			l, err := stream.Collect(ctxOf(f[1]), st.sp)
 			if err != nil {
 				return "err " + showErr(err) + logs()
 			}
 			return "list " + showList(l) + logs()
 		case f[0] == "last" && len(f) == 3:
+			api("stream.Last")
 			l, err := stream.Last(ctxOf(f[2]), st.sp, atoi(f[1]))
 			if err != nil {
 				return "err " + showErr(err) + logs()
 			}
 			return "list " + showList(l) + logs()
 		case f[0] == "one" && len(f) == 2:
+			api("stream.One")
 			x, err := stream.One(ctxOf(f[1]), st.sp)
 			if err != nil {
 				return "err " + showErr(err) + logs()
@@ -823,6 +949,7 @@ func (st *implState) exec1(f []string, logs func() string) string {
 			return "item " + showV(x) + logs()
 		case f[0] == "reduce" && len(f) == 3:
 			_, bad := splitBang(f[1])
+			api("stream.Reduce")
 			v, err := stream.Reduce(ctxOf(f[2]), st.sp, 0, func(acc int, a any) (int, error) {
 				if bad != nil && toInt(a) == *bad {
 					return acc, inj("cb" + strconv.Itoa(*bad))
@@ -834,6 +961,7 @@ func (st *implState) exec1(f []string, logs func() string) string {
 			}
 			return "val " + strconv.Itoa(v) + logs()
 		case f[0] == "sample" && len(f) == 3:
+			api("xrand.SampleStream")
 			l, err := xrand.SampleStream(ctxOf(f[2]), st.sp, atoi(f[1]))
 			if err != nil {
 				return "err " + showErr(err) + logs()
@@ -920,6 +1048,7 @@ func (st *implState) exec1(f []string, logs func() string) string {
 			for i, p := range st.ips {
 				keyed[i] = &convI[any, string]{p, showV}
 			}
+			api("iterator.Equal")
 			b := iterator.Equal(keyed...)
 			return fmt.Sprintf("equal %v", b) + logs()
 		}
@@ -933,13 +1062,17 @@ func (st *implState) exec1(f []string, logs func() string) string {
 			x, ok := p.Next()
 			return showNextI(x, ok) + logs()
 		case f[0] == "icollect":
+			api("iterator.Collect")
 			return "list " + showList(iterator.Collect(p)) + logs()
 		case f[0] == "ireduce":
+			api("iterator.Reduce")
 			v := iterator.Reduce(p, 0, func(acc int, a any) int { return acc*3 + toInt(a) })
 			return "val " + strconv.Itoa(v) + logs()
 		case f[0] == "ilast" && len(f) == 3:
+			api("iterator.Last")
 			return "list " + showList(iterator.Last(p, atoi(f[2]))) + logs()
 		case f[0] == "ione":
+			api("iterator.One")
 			x, ok := iterator.One(p)
 			if !ok {
 				return "none" + logs()
@@ -950,30 +1083,35 @@ func (st *implState) exec1(f []string, logs func() string) string {
 	return "bad-op"
 }
 
-// runImpl executes a case. A case that does not finish within the watchdog time (a combinator looping
-// without touching its source or callbacks) aborts the whole run with a recorded failure.
-func runImpl(lines []string) ([]string, *implState) {
-	type res struct {
-		out []string
-		st  *implState
-	}
-	done := make(chan res, 1)
+// watched runs f; if it does not finish within the watchdog time (a combinator looping without touching
+// its source or callbacks) the whole run is aborted with a recorded failure for the case `lines`.
+func watched(lines []string, f func()) {
+	done := make(chan struct{})
 	go func() {
-		opBudget = 3000
-		st := &implState{}
-		out := make([]string, len(lines))
-		for i, l := range lines {
-			out[i] = st.exec(l)
-		}
-		done <- res{out, st}
+		defer close(done)
+		f()
 	}()
 	select {
-	case r := <-done:
-		return r.out, r.st
+	case <-done:
 	case <-time.After(20 * time.Second):
 		onHang(lines)
 		panic("unreachable")
 	}
+}
+
+// runImpl executes a case under the watchdog.
+func runImpl(lines []string) ([]string, *implState) {
+	var out []string
+	var st *implState
+	watched(lines, func() {
+		opBudget = 3000
+		st = &implState{}
+		out = make([]string, len(lines))
+		for i, l := range lines {
+			out[i] = st.exec(l)
+		}
+	})
+	return out, st
 }
 
 var onHang = func(lines []string) { panic("hang") }
